@@ -183,11 +183,28 @@ func rulesDNATo2Bit(c *Ctx, r *Report, ntoiFn *ssa.Function) {
 	}
 	r.analysed(where)
 	calls := staticCallsTo(f, ntoiFn)
+	guardFn := f // the function in which the Ntoi result is tested: DNATo2Bit itself or a helper it calls per base
+	var helperCall *ssa.Call
+	if len(calls) == 0 {
+		instrs(f, func(in ssa.Instruction) {
+			if cl, ok := in.(*ssa.Call); ok {
+				if g := cl.Call.StaticCallee(); g != nil && g.Blocks != nil && c.inModule(g) && g != ntoiFn && len(g.Params) == 1 && len(staticCallsTo(g, ntoiFn)) > 0 {
+					helperCall = cl
+				}
+			}
+		})
+		if helperCall != nil {
+			guardFn = helperCall.Call.StaticCallee()
+			calls = staticCallsTo(guardFn, ntoiFn)
+			r.analysed(fname(guardFn))
+		}
+	}
 	if len(calls) == 0 {
 		r.violated("N-PANIC", where, "Ntoi call", c.pos(f.Pos()), "no Ntoi call: bases are not validated")
 		return
 	}
 	s := newSymb(f)
+	gsy := newSymb(guardFn)
 	var call *ssa.Call
 	for _, call = range calls {
 		// the comparison with -1
@@ -234,7 +251,21 @@ func rulesDNATo2Bit(c *Ctx, r *Report, ntoiFn *ssa.Function) {
 			}
 		}
 		r.check(len(bad) == 0, "N-PANIC", where, "use under guard", c.pos(call.Pos()), "every use of the Ntoi result for packing lies behind the `!= -1` edge", "the Ntoi result is used without the -1 test at "+strings.Join(bad, ", "))
-		arg := s.expr(call.Call.Args[0])
+		arg := gsy.expr(call.Call.Args[0])
+		if helperCall != nil {
+			// the helper validates its own parameter and returns the code only on the valid edge; DNATo2Bit hands it an element of src
+			okParam := arg.String() == "P0"
+			arg = s.expr(helperCall.Call.Args[0])
+			okRet := true
+			instrs(guardFn, func(in ssa.Instruction) {
+				if rt, ok := in.(*ssa.Return); ok {
+					if !(okBlk.Dominates(rt.Block()) && len(okBlk.Preds) == 1) {
+						okRet = false
+					}
+				}
+			})
+			r.check(okParam && okRet, "N-PANIC", fname(guardFn), "helper validates its argument", c.pos(call.Pos()), "the helper applies Ntoi to its own parameter and returns only behind the `!= -1` edge", "the helper does not validate its own parameter, or can return without passing the `!= -1` edge")
+		}
 		r.check(arg.Op == "load" && arg.Args[0].Op == "index" && arg.Args[0].Args[0].String() == "P1", "N-PANIC", where, "validated byte", c.pos(call.Pos()), "Ntoi is applied to an element of src", "Ntoi is applied to "+arg.String()+", not to an element of src")
 	}
 	if len(calls) != 1 {
@@ -324,7 +355,11 @@ func rulesDNATo2Bit(c *Ctx, r *Report, ntoiFn *ssa.Function) {
 	r.check(okApp, "MOD4", where, "new byte", c.pos(appendBlk.Instrs[0].Pos()), "a new byte is appended exactly when i mod 4 = 0", "the append branch is taken for residues 0..3 = "+strings.Join(takes, ",")+", want true,false,false,false")
 	// the packed value is byte(Ntoi result) << shift, OR-ed into the byte
 	val := s.expr(shl.X)
-	r.check(strings.Contains(val.String(), "call:sequtil.Ntoi"), "MOD4", where, "packed value", c.pos(shl.Pos()), "the shifted value is the Ntoi result", "the shifted value is "+val.String())
+	packedOK := strings.Contains(val.String(), "call:sequtil.Ntoi")
+	if helperCall != nil {
+		packedOK = strings.Contains(val.String(), "call:"+fname(guardFn)+"(")
+	}
+	r.check(packedOK, "MOD4", where, "packed value", c.pos(shl.Pos()), "the shifted value is the Ntoi result", "the shifted value is "+val.String())
 }
 
 func blockAlwaysPanics(b *ssa.BasicBlock) bool {
@@ -381,13 +416,39 @@ func rules2BitTable(c *Ctx, r *Report, itonFn *ssa.Function, itonOf map[int64]in
 			}
 		})
 	}
+	// or the rows are written in place: dnaFrom2bit[i][p] = v
+	var direct *ssa.Store
 	if cp == nil {
-		r.undecided("T-2BIT", where, "init-shape", c.pos(g.Pos()), "no `copy(dnaFrom2bit[i][:], val)` found in an initialiser")
+		for f := range inits {
+			instrs(f, func(in ssa.Instruction) {
+				if st, ok := in.(*ssa.Store); ok {
+					if ia, ok := st.Addr.(*ssa.IndexAddr); ok {
+						if row, ok := ia.X.(*ssa.IndexAddr); ok && isLoadOf(row.X, g) {
+							if direct != nil {
+								direct = nil // more than one: not the shape handled here
+								return
+							}
+							direct, initFn = st, f
+						}
+					}
+				}
+			})
+		}
+	}
+	if cp == nil && direct == nil {
+		r.undecided("T-2BIT", where, "init-shape", c.pos(g.Pos()), "neither `copy(table[i][:], row)` nor a single in-place store `table[i][p] = v` found in an initialiser")
 		return
 	}
 	r.analysed(fname(initFn))
-	pos := c.pos(cp.Pos())
-	dstIdx := cp.Call.Args[0].(*ssa.Slice).X.(*ssa.IndexAddr).Index
+	var pos string
+	var dstIdx ssa.Value
+	if cp != nil {
+		pos = c.pos(cp.Pos())
+		dstIdx = cp.Call.Args[0].(*ssa.Slice).X.(*ssa.IndexAddr).Index
+	} else {
+		pos = c.pos(direct.Pos())
+		dstIdx = direct.Addr.(*ssa.IndexAddr).X.(*ssa.IndexAddr).Index
+	}
 	iphi, _ := dstIdx.(*ssa.Phi)
 	if iphi == nil {
 		r.undecided("T-2BIT", where, "outer loop", pos, "table row index is not a loop variable")
@@ -412,15 +473,19 @@ func rules2BitTable(c *Ctx, r *Report, itonFn *ssa.Function, itonOf map[int64]in
 	}
 	r.check(size >= 256, "T-2BIT", where, "size", c.pos(g.Pos()), fmt.Sprintf("table has %d rows", size), fmt.Sprintf("table has %d rows but is indexed by a byte", size))
 	// the source of the copy: a local 4-byte slice filled by the inner loop
-	val := cp.Call.Args[1]
 	var stores []*ssa.Store
-	instrs(initFn, func(in ssa.Instruction) {
-		if st, ok := in.(*ssa.Store); ok {
-			if ia, ok := st.Addr.(*ssa.IndexAddr); ok && ia.X == val {
-				stores = append(stores, st)
+	if cp != nil {
+		val := cp.Call.Args[1]
+		instrs(initFn, func(in ssa.Instruction) {
+			if st, ok := in.(*ssa.Store); ok {
+				if ia, ok := st.Addr.(*ssa.IndexAddr); ok && ia.X == val {
+					stores = append(stores, st)
+				}
 			}
-		}
-	})
+		})
+	} else {
+		stores = []*ssa.Store{direct}
+	}
 	if len(stores) != 1 {
 		r.undecided("T-2BIT", where, "inner loop", pos, fmt.Sprintf("expected one store into the row buffer, found %d", len(stores)))
 		return
